@@ -1,7 +1,8 @@
 //! C20: ActivateSession authenticates the user exactly as the endpoint is configured.
 //!
 //! One real `Server` hosts a small universe of endpoints (user-token sets x password policies x channel
-//! security). Every case creates a session on one endpoint through a real transport whose secure channel
+//! security); a second one is the same server deployed without an application instance certificate and private
+//! key (empty PKI directory), which can only offer the None/None endpoints and cannot decrypt anything. Every case creates a session on one endpoint through a real transport whose secure channel
 //! was opened with a real OPN, then sends one or more ActivateSession requests whose identity tokens are
 //! built field by field (right and wrong policy ids, users, passwords, encryption algorithms, nonces,
 //! certificates, signatures). The oracle is `expect()`, a reference function over the universe tables.
@@ -57,6 +58,15 @@ const SECS: [(&str, &str); 5] = [
     ("Aes256Sha256RsaPss", "SignAndEncrypt"),
 ];
 
+/// The servers of the universe: "main" owns a certificate and private key, "nokey" has an empty PKI directory
+const SERVERS: [&str; 2] = ["main", "nokey"];
+/// User-token sets the server without a key hosts (on None/None with each password policy)
+const NOKEY_SETS: [&str; 5] = ["anon", "users", "anonalice", "all", "empty"];
+
+fn server_hosts(server: &str, set: &str, sec: &str) -> bool {
+    server != "nokey" || (sec == "None" && NOKEY_SETS.contains(&set))
+}
+
 fn set_ids(set: &str) -> &'static [&'static str] {
     SETS.iter().find(|s| s.0 == set).map(|s| s.1).unwrap_or(&[])
 }
@@ -98,7 +108,20 @@ fn path_of(set: &str, pwpol: &str) -> String {
 
 pub struct C20Env {
     pub env: Env,
+    /// the same configuration on a server without certificate and private key (None/None endpoints only);
+    /// its `srv` identity is merely a certificate a client may encrypt for, the server does not hold the key
+    pub nokey: Env,
     pub x: BTreeMap<String, Ident>,
+}
+
+impl C20Env {
+    fn env_of(&self, server: &str) -> &Env {
+        if server == "nokey" {
+            &self.nokey
+        } else {
+            &self.env
+        }
+    }
 }
 
 impl C20Env {
@@ -118,22 +141,30 @@ impl C20Env {
             std::fs::write(&p, x[*ident].cert.to_der().map_err(|_| "der")?).map_err(|e| e.to_string())?;
             user_tokens.insert(id.to_string(), ServerUserToken::x509(*user, &p));
         }
-        let mut endpoints = BTreeMap::new();
-        for (set, ids) in SETS.iter() {
-            for pwpol in PWPOLS.iter() {
-                for (pol, mode) in SECS.iter() {
-                    let ids: Vec<String> = ids.iter().map(|s| s.to_string()).collect();
-                    let mut e = ServerEndpoint::new(path_of(set, pwpol), policy_from(pol), mode_from(mode), &ids);
-                    if *pwpol != "unset" {
-                        e.password_security_policy = Some(pwpol.to_string());
+        let endpoints_of = |server: &str| {
+            let mut endpoints = BTreeMap::new();
+            for (set, ids) in SETS.iter() {
+                for pwpol in PWPOLS.iter() {
+                    for (pol, mode) in SECS.iter() {
+                        if !server_hosts(server, set, pol) {
+                            continue;
+                        }
+                        let ids: Vec<String> = ids.iter().map(|s| s.to_string()).collect();
+                        let mut e = ServerEndpoint::new(path_of(set, pwpol), policy_from(pol), mode_from(mode), &ids);
+                        if *pwpol != "unset" {
+                            e.password_security_policy = Some(pwpol.to_string());
+                        }
+                        endpoints.insert(format!("{}_{}_{}", set, pwpol, pol), e);
                     }
-                    endpoints.insert(format!("{}_{}_{}", set, pwpol, pol), e);
                 }
             }
-        }
-        let env = Env::new(EnvSpec { tag: format!("c20_{}", tag), user_tokens, endpoints, clients_can_modify_address_space: false });
+            endpoints
+        };
+        let env = Env::new(EnvSpec { tag: format!("c20_{}", tag), user_tokens: user_tokens.clone(), endpoints: endpoints_of("main"), clients_can_modify_address_space: false, own_identity: true });
+        let nokey = Env::new(EnvSpec { tag: format!("c20nokey_{}", tag), user_tokens, endpoints: endpoints_of("nokey"), clients_can_modify_address_space: false, own_identity: false });
         let _ = std::fs::remove_dir_all(&cert_dir);
         let env = env?;
+        let nokey = nokey?;
         // the thumbprints must have been picked up, otherwise no X.509 user can ever be recognised
         {
             let st = env.state.read();
@@ -144,7 +175,7 @@ impl C20Env {
                 }
             }
         }
-        Ok(C20Env { env, x })
+        Ok(C20Env { env, nokey, x })
     }
 }
 
@@ -271,8 +302,11 @@ fn padding_of(enc: &str) -> Option<(RsaPadding, &'static str)> {
 }
 
 /// Builds the identity token a case asks for and evaluates the reference function for it
-fn build(cenv: &C20Env, conn: &Conn, sess: &Sess, set: &str, pwpol: &str, spec: &Value, salt: u64) -> Result<Built, String> {
-    let env = &cenv.env;
+fn build(cenv: &C20Env, server: &str, conn: &Conn, sess: &Sess, set: &str, pwpol: &str, spec: &Value, salt: u64) -> Result<Built, String> {
+    let env = cenv.env_of(server);
+    // a server without a private key cannot decrypt a password, and without a certificate there is nothing an
+    // X.509 user token signature could be made over
+    let nokey = server == "nokey";
     let t = spec["t"].as_str().unwrap_or("anon");
     let anon_ok = set_allows_anonymous(set);
     match t {
@@ -394,6 +428,8 @@ fn build(cenv: &C20Env, conn: &Conn, sess: &Sess, set: &str, pwpol: &str, spec: 
                 (Verdict::Deny, if USERS.iter().any(|u| u.1 == user) || XUSERS.iter().any(|u| u.1 == user) { "user-not-on-endpoint" } else { "unknown-user" })
             } else if !pw_matches {
                 (Verdict::Deny, "wrong-password")
+            } else if rsa_like && nokey {
+                (Verdict::Deny, "encrypted-password-but-server-has-no-private-key")
             } else if rsa_like && nonce_kind == "stale" && sess.previous().is_some() {
                 (Verdict::Deny, if nonce_is_current { "encrypted-for-earlier-nonce|nonce-was-not-renewed" } else { "encrypted-for-earlier-nonce" })
             } else if !matches {
@@ -507,7 +543,7 @@ fn build(cenv: &C20Env, conn: &Conn, sess: &Sess, set: &str, pwpol: &str, spec: 
                         "signature-over-wrong-data"
                     },
                 )
-            } else if canonical {
+            } else if canonical && !nokey {
                 (Verdict::Allow, "")
             } else {
                 (Verdict::Either, "")
@@ -536,6 +572,10 @@ pub struct Stats {
     pub accepted: u64,
     pub rejected: u64,
     pub nonce_repeats: u64,
+    /// activations sent to the server without certificate / private key, and those of them whose token names an
+    /// encryption algorithm
+    pub nokey: u64,
+    pub nokey_alg_set: u64,
     pub classes: Vec<String>,
     pub problems: Vec<String>,
     pub statuses: BTreeMap<String, u64>,
@@ -549,18 +589,18 @@ impl Conns {
     pub fn new() -> Conns {
         Conns { conns: BTreeMap::new() }
     }
-    fn get(&mut self, cenv: &C20Env, pol: &str, mode: &str) -> Result<&mut Conn, String> {
-        let key = format!("{}/{}", pol, mode);
+    fn get(&mut self, cenv: &C20Env, server: &str, pol: &str, mode: &str) -> Result<&mut Conn, String> {
+        let key = format!("{}:{}/{}", server, pol, mode);
         if !self.conns.contains_key(&key) {
-            let mut c = Conn::new(&cenv.env, policy_from(pol), mode_from(mode));
+            let mut c = Conn::new(cenv.env_of(server), policy_from(pol), mode_from(mode));
             c.hello(&format!("{}{}", base_url(), path_of("anon", "unset")))?;
             c.open(SecurityTokenRequestType::Issue)?;
             self.conns.insert(key.clone(), c);
         }
         Ok(self.conns.get_mut(&key).unwrap())
     }
-    fn drop_conn(&mut self, pol: &str, mode: &str) {
-        if let Some(mut c) = self.conns.remove(&format!("{}/{}", pol, mode)) {
+    fn drop_conn(&mut self, server: &str, pol: &str, mode: &str) {
+        if let Some(mut c) = self.conns.remove(&format!("{}:{}/{}", server, pol, mode)) {
             c.finish();
         }
     }
@@ -583,14 +623,15 @@ pub fn run_case(cenv: &C20Env, conns: &mut Conns, case: &Value, stats: &mut Stat
     let pwpol = case["pwpol"].as_str().unwrap_or("unset").to_string();
     let pol = case["sec"].as_str().unwrap_or("None").to_string();
     let mode = case["mode"].as_str().unwrap_or("None").to_string();
+    let server = case["server"].as_str().unwrap_or("main").to_string();
     let salt = fnv64(case.to_string().as_bytes());
-    let env = &cenv.env;
+    let env = cenv.env_of(&server);
     let url = format!("{}{}", base_url(), path_of(&set, &pwpol));
-    let conn = match conns.get(cenv, &pol, &mode) {
+    let conn = match conns.get(cenv, &server, &pol, &mode) {
         Ok(c) => c,
         Err(e) => {
             stats.problems.push(format!("connection {}/{}: {}", pol, mode, e));
-            conns.drop_conn(&pol, &mode);
+            conns.drop_conn(&server, &pol, &mode);
             return findings;
         }
     };
@@ -608,11 +649,11 @@ pub fn run_case(cenv: &C20Env, conns: &mut Conns, case: &Value, stats: &mut Stat
         }
         other => {
             stats.problems.push(format!("CreateSession on {} {}/{}: {}", url, pol, mode, other.short()));
-            conns.drop_conn(&pol, &mode);
+            conns.drop_conn(&server, &pol, &mode);
             return findings;
         }
     };
-    let ep_class = format!("{}|pw={}|{}/{}", set, pwpol, pol, mode);
+    let ep_class = format!("{}{}|pw={}|{}/{}", if server == "nokey" { "server-without-key:" } else { "" }, set, pwpol, pol, mode);
     // (token, signature, kind, nonce an encrypted password inside was made for)
     type Kept = (ExtensionObject, SignatureData, String, Option<Vec<u8>>);
     let mut first_accepted_token: Option<Kept> = None;
@@ -637,7 +678,7 @@ pub fn run_case(cenv: &C20Env, conns: &mut Conns, case: &Value, stats: &mut Stat
                 }
             }
         } else {
-            match build(cenv, conn, &sess, &set, &pwpol, step, salt ^ n as u64) {
+            match build(cenv, &server, conn, &sess, &set, &pwpol, step, salt ^ n as u64) {
                 Ok(b) => b,
                 Err(e) => {
                     stats.problems.push(format!("building a token: {}", e));
@@ -657,6 +698,12 @@ pub fn run_case(cenv: &C20Env, conns: &mut Conns, case: &Value, stats: &mut Stat
         };
         let out = conn.request(request.into());
         stats.activations += 1;
+        if server == "nokey" {
+            stats.nokey += 1;
+            if built.kind.starts_with("username-encrypted") || matches!(step["enc"].as_str(), Some("unknownalg") | Some("algbutplain")) {
+                stats.nokey_alg_set += 1;
+            }
+        }
         let step_class = format!(
             "{}|{}|step{}{}|{}",
             built.kind,
@@ -691,11 +738,11 @@ pub fn run_case(cenv: &C20Env, conns: &mut Conns, case: &Value, stats: &mut Stat
             }
             Outcome::Panic(p) => {
                 findings.push(Finding {
-                    signature: format!("{}|{}", p.signature(), built.kind),
+                    signature: format!("{}|{}{}", p.signature(), built.kind, if server == "nokey" { "|server-without-key" } else { "" }),
                     detail: format!("ActivateSession panicked at {}:{}: {} (endpoint {}, step {} = {})", p.file, p.line, p.msg, ep_class, n, step),
                 });
                 // the transport may hold poisoned state; start over
-                conns.drop_conn(&pol, &mode);
+                conns.drop_conn(&server, &pol, &mode);
                 return findings;
             }
             other => {
@@ -755,8 +802,9 @@ pub fn run_case(cenv: &C20Env, conns: &mut Conns, case: &Value, stats: &mut Stat
 // Case enumeration
 // ------------------------------------------------------------------------------------------------
 
-fn case_of(set: &str, pwpol: &str, sec: (&str, &str), steps: Vec<Value>, shape: &str) -> Value {
-    json!({"class": format!("{}|{}|{}|{}/{}", shape, set, pwpol, sec.0, sec.1), "set": set, "pwpol": pwpol, "sec": sec.0, "mode": sec.1, "steps": steps})
+fn case_of(server: &str, set: &str, pwpol: &str, sec: (&str, &str), steps: Vec<Value>, shape: &str) -> Value {
+    json!({"class": format!("{}|{}|{}|{}/{}{}", shape, set, pwpol, sec.0, sec.1, if server == "nokey" { "|server-without-key" } else { "" }),
+        "server": server, "set": set, "pwpol": pwpol, "sec": sec.0, "mode": sec.1, "steps": steps})
 }
 
 fn user(u: &str, pass: &str, enc: &str, nonce: &str, pid: &str) -> Value {
@@ -793,10 +841,22 @@ fn good_token_for(set: &str) -> Option<Value> {
 
 fn grid() -> Vec<Value> {
     let mut v = Vec::new();
+    // the server with a key first, so that its cases keep their place in the enumeration
+    for server in SERVERS.iter() {
+        grid_of(server, &mut v);
+    }
+    v
+}
+
+fn grid_of(server: &str, v: &mut Vec<Value>) {
+    let with_x509 = server != "nokey";
     for (set, _) in SETS.iter() {
         for pwpol in PWPOLS.iter() {
             for sec in SECS.iter() {
-                let mut add = |steps: Vec<Value>, shape: &str| v.push(case_of(set, pwpol, *sec, steps, shape));
+                if !server_hosts(server, set, sec.0) {
+                    continue;
+                }
+                let mut add = |steps: Vec<Value>, shape: &str| v.push(case_of(server, set, pwpol, *sec, steps, shape));
                 // anonymous
                 for pid in ANON_PIDS.iter() {
                     add(vec![json!({"t": "anon", "policy_id": pid})], "anon");
@@ -827,12 +887,14 @@ fn grid() -> Vec<Value> {
                         }
                     }
                 }
-                // X.509 tokens
+                // X.509 tokens (a server without a certificate only gets the canonical ones: all must be refused or are undecided)
                 for c in CERTS.iter() {
                     add(vec![x509(c, "own", "adv", "adv")], "x509-canonical");
-                    add(vec![x509(c, "other", "adv", "adv")], "x509-otherkey");
+                    if with_x509 {
+                        add(vec![x509(c, "other", "adv", "adv")], "x509-otherkey");
+                    }
                 }
-                for c in ["x1", "x2"] {
+                for c in if with_x509 { vec!["x1", "x2"] } else { vec![] } {
                     for s in SIGS.iter().skip(1) {
                         add(vec![x509(c, "own", s, "adv")], "x509-sig");
                     }
@@ -850,7 +912,7 @@ fn grid() -> Vec<Value> {
                             add(vec![good.clone(), user(u, "right", e, "stale", "adv")], "re-user-stale-nonce");
                         }
                     }
-                    for c in ["x1", "x2", "x3"] {
+                    for c in if with_x509 { vec!["x1", "x2", "x3"] } else { vec![] } {
                         add(vec![good.clone(), x509(c, "own", "adv", "adv")], "re-x509");
                         add(vec![good.clone(), x509(c, "own", "stale", "adv")], "re-x509-stale");
                     }
@@ -868,13 +930,13 @@ fn grid() -> Vec<Value> {
             }
         }
     }
-    v
 }
 
 fn random_case(rng: &mut Rng) -> Value {
-    let set = rng.pick(&SETS).0;
+    let server = if rng.chance(1, 8) { "nokey" } else { "main" };
+    let set = if server == "nokey" { *rng.pick(&NOKEY_SETS) } else { rng.pick(&SETS).0 };
     let pwpol = *rng.pick(&PWPOLS);
-    let sec = *rng.pick(&SECS);
+    let sec = if server == "nokey" { SECS[0] } else { *rng.pick(&SECS) };
     let nsteps = 1 + rng.usize(4);
     let mut steps = Vec::new();
     for i in 0..nsteps {
@@ -915,7 +977,7 @@ fn random_case(rng: &mut Rng) -> Value {
             }
         }
     }
-    case_of(set, pwpol, sec, steps, "random")
+    case_of(server, set, pwpol, sec, steps, "random")
 }
 
 pub fn c20(args: &Args, rep: &mut Report) {
@@ -976,6 +1038,8 @@ pub fn c20(args: &Args, rep: &mut Report) {
         total.accepted += st.accepted;
         total.rejected += st.rejected;
         total.nonce_repeats += st.nonce_repeats;
+        total.nokey += st.nokey;
+        total.nokey_alg_set += st.nokey_alg_set;
         for (k, v) in st.statuses {
             *total.statuses.entry(k).or_insert(0) += v;
         }
@@ -992,6 +1056,8 @@ pub fn c20(args: &Args, rep: &mut Report) {
     rep.count("server_accepted", total.accepted);
     rep.count("server_refused", total.rejected);
     rep.count("server_nonce_repeated_within_session", total.nonce_repeats);
+    rep.count("activations_on_server_without_key", total.nokey);
+    rep.count("activations_on_server_without_key_with_encryption_algorithm_set", total.nokey_alg_set);
     for (k, v) in total.statuses {
         rep.count(&format!("refused_with_{}", k), v);
     }
